@@ -83,6 +83,11 @@ def cases():
     out.append(Case('git rename onto a name ending in a slash', F, {'p0.patch': b'diff --git a/f b/h/\nrename from f\nrename to h/\n'}, ['p0.patch'], ['name-that-is-no-file-name'], first_fail=None,
                     props=('C05', 'C06'), expect={'exit': '1', 'applied': [], 'tree': F, 'rejects': []}))
 
+    # ---- a link that leads out of the working directory: refused, by the dry run as well
+    fo = dict(F, out=(b'../no-such-place-outside', 'link'))
+    out.append(Case('patch naming a file through a link that leads out of the tree', fo, {'p0.patch': mod(b'g', b'g', 2, b'G2'), 'p1.patch': create(b'out/n', [b'n1'])}, ['p0.patch', 'p1.patch'],
+                    ['symlink', 'link-leading-out'], first_fail=None, props=('C05', 'C06'), expect={'exit': '1', 'applied': [], 'tree': fo, 'rejects': []}))
+
     # ---- something is wrong with a patch behind the failing one: the push ends at the failing patch all the same
     bad_later = {
         'missing patch file': None,
